@@ -67,9 +67,22 @@ fn gen_case(r: &mut Prng, big: bool) -> Case {
                 })
                 .collect::<Vec<_>>()
         };
-        match r.below(6) {
+        match r.below(9) {
             0 => stmts.push(call("gm", vec![rf("x"), rf("y")])),
             3 => stmts.push(call(*r.pick(&["sum", "mul", "max", "min"]), vec![lit_i(5), lit_i(6)])),
+            4 => {
+                // a context function that shadows a global / built-in function of the same name: the
+                // binding must win in every evaluation, whatever was evaluated before
+                let name = *r.pick(&["sum", "max", "gm"]);
+                let h = case.add_handler(HandlerSpec::plain(HKind::CtxFunc, Ret::Const(Val::int(17))));
+                case.slots[0].funcs.push((name.into(), h));
+                stmts.push(call(name, vec![lit_i(5), lit_i(6)]));
+            }
+            5 if i == 0 => {
+                // a program with more than 128 distinct lexemes
+                stmts.push(Expr::List((0..150).map(|k| rf(&format!("n{}", k))).collect()));
+                stmts.push(bin("&&", bin("in", lit_i(3), Expr::List(vec![lit_i(1), lit_i(2), lit_i(3)])), bin("<=", lit_i(2), lit_i(3))));
+            }
             1 => stmts.insert(r.usize(stmts.len() + 1), bin("+", lit_b(true), lit_i(1))), // fails midway
             2 if i > 0 => {
                 // textually close to an earlier program: same statements but the last
